@@ -393,5 +393,8 @@ pub fn run(tier: Tier) -> Report {
         }
     }
     rep.sample(json!({"op":"Track::merge","dest_shape":2,"src_shape":3,"classes":[0,1],"history":true,"fault":"optimize-call-2"}));
+    // an add / fetch / duplicate add / clear that races with a non-blocking merge in the store (engine B, shared
+    // with C09): a reported success is complete, a failed or pending merge never makes the track disappear
+    super::c09::noblock_schedules(&rep, tier);
     rep
 }
